@@ -48,7 +48,7 @@ func concWriterJobs(tier string) []*Job {
 	}
 	// one full 64 KiB block and a tail through Write (the only way to a block without Flush)
 	big := cmk("H_conc_w", 1, base(2, 9, 1, 1, -1, -1))
-	jobs = append(jobs, big)
+	jobs = append(jobs, big, cmk("H_conc_w", 1, base(2, 13, 0, 1, -1, -1)))
 	if tier == "thorough" {
 		jobs = append(jobs, cmk("H_conc_w", 2, base(3, 9, 0, 1, -1, -1)))
 	}
@@ -202,7 +202,7 @@ func init() {
 				d, nums = 3, "2, 3, 4"
 			}
 			return []string{
-				fmt.Sprintf("Writer with ConcurrencyOption in {%s}, 64 KiB blocks, block/content checksum on/off, on-block-done callback installed; call sequences: Write Close | Write Flush Write Close | Write Flush Close | Write Close Reset Write Close | Write Close Close | ReadFrom Close | Write ReadFrom Close | Flush Close | Write Flush Write Flush Write Close | Write Flush Reset Write Close | Write Reset Write Close | Write Close Write Close | Write(64 KiB + 20) Close; chunks of 20 and 10 concrete bytes", nums),
+				fmt.Sprintf("Writer with ConcurrencyOption in {%s}, 64 KiB blocks, block/content checksum on/off, on-block-done callback installed; call sequences: Write Close | Write Flush Write Close | Write Flush Close | Write Close Reset Write Close | Write Close Close | ReadFrom Close | Write ReadFrom Close | Flush Close | Write Flush Write Flush Write Close | Write Flush Reset Write Close | Write Reset Write Close | Write Close Write Close | Write(64 KiB + 20) Close | ReadFrom(64 KiB + 20) Close; chunks of 20 and 10 concrete bytes (also empty chunks)", nums),
 				fmt.Sprintf("every schedule with at most %d delays (writer faults and reuse: fewer, see job ids ...-dN) of the main goroutine, the ordering goroutine and the per-block goroutines", d),
 				"writer faults: the sink failing at call 0..5 (0..7 for three blocks), the ReadFrom source failing at call 0..1",
 				fmt.Sprintf("Reader with ConcurrencyOption in {%s} over frames of 1..3 (thorough 4) small blocks made by the sequential Writer; Read with 5-byte and 64 KiB buffers, WriteTo; truncation / byte flip at 10 (thorough: every) position(s) of the 2-block frame, source failing at call 0..7; Reset onto an intact frame after a clean end, after an error and after a WriteTo whose destination failed at call 0..2; legacy frame (sequential fallback); every sequence of 3 (thorough 4) calls of {Read small/big/empty, WriteTo, Size, Reset} including Reset before the end of the stream", nums),
